@@ -6,7 +6,7 @@ UNIT = dict(
     prelude=["fswatch_env.rs"],
     spec=["spec.rs"],
     rules=dict(
-        env_methods=["next", "get", "send", "watch", "unwatch"],
+        env_methods=["next", "get", "send", "try_send", "watch", "unwatch"],
         question=True,
         subst=[("PathBuf", "PathS"), ("HashSet::new()", "PathSetS::new()"), ("notify::RecursiveMode::", "RecursiveMode::")],
     ),
